@@ -290,3 +290,22 @@ impl<const N: usize> ByteBuf<u8, N> {
         self.extend_from_slice(s.as_bytes());
     }
 }
+
+impl<T, const N: usize> FixedVec<T, N> {
+    pub fn extend<I: IntoIterator<Item = T>>(&mut self, it: I) {
+        for x in it {
+            self.push(x);
+        }
+    }
+}
+impl<T: Clone, const N: usize> FixedVec<T, N> {
+    pub fn from_slice(s: &[T]) -> Self {
+        let mut v = Self::new();
+        let mut i = 0;
+        while i < s.len() {
+            v.push(s[i].clone());
+            i += 1;
+        }
+        v
+    }
+}
